@@ -285,6 +285,23 @@ func h20Shape(shape int) (parts []h20Part, reject bool) {
 		head := vndByte("head")
 		parts = []h20Part{{"file", "h.txt", []byte("key: k\n" + string([]byte{head}) + "enchmarkH 1 5 ns/op\n")}}
 		reject = head != 'B'
+	case 9: // client commit followed by the abort field (what the client sends when closing the form fails)
+		parts = []h20Part{file('0', "a.txt"), {"commit", "", []byte("1")}, {"abort", "", []byte("1")}}
+		reject = true
+	case 10: // client commit followed by a file without benchmark lines
+		parts = []h20Part{file('0', "a.txt"), {"commit", "", []byte("1")}, {"file", "n.txt", []byte("nothing here\n")}}
+		reject = true
+	case 11: // client commit followed by another valid file
+		parts = []h20Part{file('0', "a.txt"), {"commit", "", []byte("1")}, file('1', "b.txt")}
+	case 12: // many differently labelled results: the label queue is flushed in the middle of a record
+		n := 30 + vndChoice("results", 12)
+		var content []byte
+		for i := 0; i < n; i++ {
+			content = append(content, "key: v"...)
+			content = append(content, '0'+byte(i/10), '0'+byte(i%10), '\n')
+			content = append(content, "BenchmarkM 1 5 ns/op\n"...)
+		}
+		parts = []h20Part{{"file", "many.txt", content}}
 	default:
 		panic("h20: no such shape")
 	}
@@ -471,9 +488,21 @@ func H20Upload() {
 		vndAssert(n == 1, "every_record_carries_its_name_label_once")
 	}
 	vndAssert(got == wantContent, "every_benchmark_line_of_every_file_is_queryable_exactly_once_in_order")
+	if shape == 12 {
+		// every result has its own label value: one record each, carrying that value
+		want := strings.Count(wantContent, "\n")
+		vndAssert(len(newRecs) == want, "differently_labelled_results_are_separate_records")
+		for k, r := range newRecs {
+			kv, _ := e.st.LabelOf(id, r.ID, "key")
+			vndAssert(kv == "v"+string([]byte{'0' + byte(k/10), '0' + byte(k%10)}), "record_carries_the_file_configuration_in_force")
+		}
+		if e.st.MaxArgs >= 900 {
+			vndReach("h20:label-queue-flushed")
+		}
+	}
 	// consecutive results with identical labels are one record: per file 1 or 2 records
 	for pi, p := range parts {
-		if p.form != "file" || len(p.content) < 40 {
+		if p.form != "file" || len(p.content) < 40 || shape == 12 {
 			continue
 		}
 		partID := id + "/" + string([]byte{'0' + byte(pi)})
